@@ -78,6 +78,11 @@ def main():
             res["demo_pristine"] = rc
             print(f"demo on pristine tree: exit={rc}" + ("" if rc == 0 else f" :: {out[-300:]!r}"))
         r = sh(["git", "-C", wt, "apply", os.path.join(sdir, "patch.diff")])
+        if r.returncode:
+            # written against an earlier HEAD (a fix: commit touched the same file since): three-way
+            r = sh(["git", "-C", wt, "apply", "--3way", os.path.join(sdir, "patch.diff")])
+            sh(["git", "-C", wt, "reset", "-q"])
+            res["applied_three_way"] = r.returncode == 0
         res["applies"] = r.returncode == 0
         if r.returncode:
             print("PATCH DOES NOT APPLY:", r.stderr[-400:])
